@@ -23,6 +23,11 @@ static const char *g_script = "fiir";
 static int g_qlen = 1;
 static bool g_loop = true;   /* producer has an event loop */
 static int g_maxlen = 0;     /* set_max_length on the sink */
+static int g_preattach = 0;  /* 1: before the threads exist the application connects the queue source and attaches it to an event loop of
+                              * its own (both watchers are created there); the consumer thread then attaches it to *its* loop, as a
+                              * transfer to a worker thread does: nothing of the queue source may stay on the first loop */
+static bool g_pre;
+static struct upump_mgr *g_pre_mgr;
 
 static struct px_fix fx;
 static struct upump_mgr *g_mgr[2];
@@ -52,6 +57,11 @@ static void fail(const char *sig, const char *fmt, ...)
 static int on_event(struct px_fix *f, struct upipe *upipe, int event, va_list args)
 {
     (void)f;
+    if (event == UPROBE_NEED_UPUMP_MGR && g_pre) {
+        struct upump_mgr **p = va_arg(args, struct upump_mgr **);
+        *p = upump_mgr_use(g_pre_mgr);
+        return UBASE_ERR_NONE;
+    }
     if (event == UPROBE_NEED_UPUMP_MGR) {
         int t = vs_self();
         if (t < 0)
@@ -117,6 +127,14 @@ static void setup(void)
     g_qsrc_held = true;
     g_qsink = upipe_qsink_alloc(upipe_qsink_mgr_alloc(), px_probe(&fx), g_qsrc);
     assert(g_qsink);
+    if (g_preattach) {
+        g_pre_mgr = vmock_mgr_alloc(0, 0);
+        ignore_block_of(g_pre_mgr);
+        g_pre = true;
+        ubase_assert(upipe_set_output(g_qsrc, &fx.sinks[0].upipe));
+        ubase_assert(upipe_attach_upump_mgr(g_qsrc));
+        g_pre = false;
+    }
 }
 
 static bool loop_ready(void *arg)
@@ -247,6 +265,9 @@ static void consumer(void *arg)
     (void)arg;
     ubase_assert(upipe_attach_upump_mgr(g_qsrc));
     ubase_assert(upipe_set_output(g_qsrc, &fx.sinks[0].upipe));
+    if (g_preattach && vmock_mgr_from_upump_mgr(g_pre_mgr)->npumps != 0)
+        fail("queue:watcher-left-on-previous-loop", "after the queue source was attached to the consumer's event loop, %d of its watchers still live on the loop it was attached to before",
+             vmock_mgr_from_upump_mgr(g_pre_mgr)->npumps);
     for (;;) {
         if (g_source_end && g_qsrc_held) {
             g_qsrc_held = false;
@@ -366,6 +387,14 @@ static int check_full(int outcome, char *sig, char *msg)
 {
     int r = check(outcome, sig, msg);
     outcome_compute(g_outcome, sizeof(g_outcome));
+    if (g_preattach && g_pre_mgr != NULL) {
+        struct vmock_mgr *pm = vmock_mgr_from_upump_mgr(g_pre_mgr);
+        if (outcome == VS_DONE) { /* (an abandoned execution leaves its objects behind) */
+            upump_mgr_release(g_pre_mgr);
+            free(pm);
+        }
+        g_pre_mgr = NULL;
+    }
     if (outcome == VS_DONE) {
         struct vmock_mgr *vm = vmock_mgr_from_upump_mgr(g_mgr[0]);
         int npumps = vm->npumps;
@@ -418,6 +447,7 @@ int main(int argc, char **argv)
         else if (!strcmp(argv[i], "--qlen")) g_qlen = atoi(argv[i + 1]);
         else if (!strcmp(argv[i], "--loop")) g_loop = atoi(argv[i + 1]) != 0;
         else if (!strcmp(argv[i], "--maxlen")) g_maxlen = atoi(argv[i + 1]);
+        else if (!strcmp(argv[i], "--preattach")) g_preattach = atoi(argv[i + 1]);
     }
     /* atomics, descriptors, loop iterations, explicit points; not the ring's plain accesses (C07) */
     opt.kind_mask = 0xffffffffu & ~((1u << 5) | (1u << 6));
